@@ -62,7 +62,7 @@ func genC13() {
 	b.WriteString("]\n\n")
 	fmt.Fprintf(&b, "/-- `CheckpointKey` of redis-shake/common/common.go (FilterKey never passes a key with this prefix) -/\n")
 	ck := strConst("redis-shake/common/common.go", "CheckpointKey")
-	fmt.Fprintf(&b, "def checkpointKey : List UInt8 := /- %s -/ %s\n\n", c13Comment(ck), leanBytes(ck))
+	fmt.Fprintf(&b, "def c13CheckpointKey : List UInt8 := /- %s -/ %s\n\n", c13Comment(ck), leanBytes(ck))
 	b.WriteString("end RSVerif.Generated\n")
 	writeIfChanged("RedisCommands.lean", b.String())
 
@@ -122,19 +122,6 @@ func c13Row(v ast.Expr, env constEnv) (first, last, step int64, ok bool) {
 }
 
 // leanBytes renders a Go string (a byte sequence) as a Lean `List UInt8` literal.
-func leanBytes(s string) string {
-	var b strings.Builder
-	b.WriteByte('[')
-	for i, c := range []byte(s) {
-		if i > 0 {
-			b.WriteString(", ")
-		}
-		fmt.Fprintf(&b, "0x%02x", c)
-	}
-	b.WriteByte(']')
-	return b.String()
-}
-
 // c13Comment: printable rendering for a Lean block comment (no comment delimiters can appear).
 func c13Comment(s string) string {
 	var b strings.Builder
